@@ -313,6 +313,9 @@ def check_value(scn: dict, shapes, rng: random.Random, dtype) -> tuple[list[str]
             except Exception:                       # noqa: BLE001   (the aggregator itself may refuse a matrix)
                 continue
             evals += 1
+            if len(rec.calls) != 1:
+                fails.append(f"Aggregate({agg}, order={order}) {tag}: the aggregator was called {len(rec.calls)} times on a {m}-row jacobian")
+                continue
             vec = rec.calls[0]["out"].reshape(-1)
             off = 0
             for k in order:
